@@ -36,6 +36,8 @@ pub struct Dom {
     pub custom_kernels: bool,
     /// zero-channel instances at a low rate
     pub zero_channels: bool,
+    /// "wild" swarm: 3 % of the configurations widen one dimension far beyond the usual range
+    pub wild: bool,
 }
 
 impl Default for Dom {
@@ -56,6 +58,7 @@ impl Default for Dom {
             fft_cap: 640,
             custom_kernels: false,
             zero_channels: false,
+            wild: false,
         }
     }
 }
@@ -253,7 +256,7 @@ pub fn gen_config(rng: &mut Rng, dom: &Dom) -> Config {
         sinc_len = *rng.pick(&[2usize, 3, 5, 7, 9, 15, 33, 63, 100, 127]);
     }
     let (channels, mask) = if dom.zero_channels && rng.chance(0.01) { (0, mask.map(|_| Vec::new())) } else { (channels, mask) };
-    Config {
+    let mut cfg = Config {
         kind,
         f32: f32_,
         ratio,
@@ -273,6 +276,129 @@ pub fn gen_config(rng: &mut Rng, dom: &Dom) -> Config {
         cpu_mask: 0,
         mask,
         empty_inactive,
+    };
+    if dom.wild && rng.chance(0.03) {
+        widen(rng, &mut cfg);
+    }
+    sanitize(&mut cfg);
+    cfg
+}
+
+/// Keep one call's buffers below ~16 Mi samples in total (the swarm modes multiply: big chunk x many channels x
+/// extreme ratio); the deliberate "huge" mode has its own single-channel configurations.
+pub fn sanitize(cfg: &mut Config) {
+    let limit = (1u64 << 24) as f64;
+    for _ in 0..40 {
+        let r = cfg.nominal_ratio();
+        let m = cfg.max_rel.max(1.0);
+        let ch = cfg.channels.max(1) as f64;
+        let (fin, fout) = match cfg.kind {
+            Kind::SincIn | Kind::FastIn => (cfg.chunk as f64, cfg.chunk as f64 * r * m + 16.0),
+            Kind::SincOut | Kind::FastOut => (cfg.chunk as f64 / r * m + 2.0 * cfg.sinc_len_rounded() as f64, cfg.chunk as f64),
+            Kind::FftIn | Kind::FftInOut => (cfg.chunk as f64, cfg.chunk as f64 * r + cfg.rate_out as f64),
+            Kind::FftOut => (cfg.chunk as f64 / r + cfg.rate_in as f64, cfg.chunk as f64),
+        };
+        // the async FixedOut internal buffer is (max_rel + 1) times the input size
+        let internal = if matches!(cfg.kind, Kind::SincOut | Kind::FastOut) { fin * (m + 1.0) } else { fin };
+        if (fin + fout + internal) * ch <= limit || cfg.chunk <= 1 {
+            break;
+        }
+        if cfg.channels > 2 && ch > 4.0 {
+            cfg.channels = (cfg.channels / 2).max(2);
+            if let Some(mk) = &mut cfg.mask {
+                mk.truncate(cfg.channels);
+            }
+        } else {
+            cfg.chunk = (cfg.chunk / 2).max(1);
+            if cfg.sub_chunks > cfg.chunk {
+                cfg.sub_chunks = 1;
+            }
+        }
+    }
+}
+
+/// "Wild" swarm: one dimension of a configuration far outside the usual range (large but valid parameters).
+pub fn widen(rng: &mut Rng, cfg: &mut Config) {
+    match rng.below(8) {
+        7 => {
+            // sinc tables of millions of points (sizes in bytes then differ between f32 and f64)
+            if cfg.kind.is_sinc() && cfg.kernel == Kernel::Auto {
+                cfg.sinc_len = *rng.pick(&[512usize, 1024, 2048]);
+                cfg.oversampling = *rng.pick(&[1500usize, 2049, 3000, 4096]);
+                cfg.chunk = cfg.chunk.min(64);
+                cfg.channels = 1;
+                cfg.mask = None;
+            }
+        }
+        0 => {
+            // many channels (cheap configuration)
+            cfg.channels = rng.usize_in(9, 100);
+            cfg.chunk = cfg.chunk.min(128);
+            cfg.sinc_len = cfg.sinc_len.min(32);
+            if let Some(m) = &mut cfg.mask {
+                m.resize(cfg.channels, true);
+            }
+        }
+        1 => {
+            // a very wide ratio range
+            if cfg.kind.is_async() {
+                cfg.max_rel = rng.log_uniform(16.0, 300.0);
+                cfg.ratio = rng.log_uniform(0.5, 2.0);
+                cfg.chunk = cfg.chunk.min(256);
+                cfg.sinc_len = cfg.sinc_len.min(32);
+            }
+        }
+        2 => {
+            // relative cutoff above 1 (accepted by every constructor)
+            cfg.f_cutoff = rng.uniform(1.0, 2.5) as f32;
+        }
+        3 => {
+            // large chunks on cheap kernels
+            let cheap = cfg.kind.is_fast() || cfg.kind.is_fft() || matches!(cfg.kernel, Kernel::Probe | Kernel::Custom);
+            if cheap {
+                cfg.chunk = rng.log_usize(4097, 1 << 20);
+                cfg.channels = cfg.channels.min(2);
+                if let Some(m) = &mut cfg.mask {
+                    m.truncate(cfg.channels);
+                }
+                if cfg.kind.is_fft() {
+                    cfg.sub_chunks = *rng.pick(&[1usize, 1, 2, 64, 1024]);
+                    if cfg.sub_chunks == 1 {
+                        cfg.chunk = cfg.chunk.min(1 << 19);
+                    }
+                }
+            }
+        }
+        4 => {
+            // very fine oversampling grid, long chunks on the probe kernel: position * factor beyond 2^31
+            if cfg.kind.is_sinc() {
+                cfg.oversampling = *rng.pick(&[4096usize, 8192, 16384]);
+                cfg.sinc_len = 8;
+                if matches!(cfg.kernel, Kernel::Probe | Kernel::Custom) {
+                    cfg.chunk = rng.log_usize(1 << 17, 1 << 20);
+                    cfg.channels = 1;
+                    cfg.mask = None;
+                }
+            }
+        }
+        5 => {
+            // sample rates beyond 2^32 with a huge common factor
+            if cfg.kind.is_fft() {
+                let f = 1usize << *rng.pick(&[30usize, 31, 32, 40]);
+                let (a, b) = *rng.pick(&[(7usize, 3usize), (3, 7), (147, 160), (160, 147), (2, 1), (1, 2), (3, 2)]);
+                cfg.rate_in = a * f;
+                cfg.rate_out = b * f;
+            }
+        }
+        _ => {
+            // tiny ratios / huge ratios at the edge of the constructor's domain
+            if cfg.kind.is_async() {
+                cfg.ratio = if rng.chance(0.5) { rng.log_uniform(1.0 / 512.0, 1.0 / 16.0) } else { rng.log_uniform(16.0, 256.0) };
+                cfg.chunk = cfg.chunk.min(64);
+                cfg.max_rel = cfg.max_rel.min(2.0);
+                cfg.sinc_len = cfg.sinc_len.min(32);
+            }
+        }
     }
 }
 
@@ -362,8 +488,15 @@ pub fn gen_extreme_directed(rng: &mut Rng, kind: Kind) -> (Config, Vec<Op>) {
     let flen = if kind.is_sinc() { sinc_len } else { 8 };
     let fixed_in = matches!(kind, Kind::SincIn | Kind::FastIn);
     let chunk = if fixed_in {
-        // every residue modulo the step, a few steps above the filter length
-        flen + 1 + rng.usize_in(0, 4 * step.max(1) + 8)
+        if rng.chance(0.5) {
+            // the first chunk at the lowest ratio ends exactly at the loop's end index: from the start position
+            // -flen/2 the read position lands on it after a whole number of integer steps K
+            let kk = (max_rel / ratio).round().max(1.0) as usize;
+            flen / 2 + kk + 2 + kk * rng.usize_in(0, 40)
+        } else {
+            // every residue modulo the step, a few steps above the filter length
+            flen + 1 + rng.usize_in(0, 4 * step.max(1) + 8)
+        }
     } else {
         // fixed output: chunk * max_rel / ratio an exact integer
         let per = (ratio * 100.0).round() as usize;
@@ -377,7 +510,34 @@ pub fn gen_extreme_directed(rng: &mut Rng, kind: Kind) -> (Config, Vec<Op>) {
             }
             gg(per.max(1), 100)
         };
-        ((per.max(1) / g) * rng.usize_in(1, 40)).clamp(1, 4096)
+        if rng.chance(0.4) {
+            // chunk / ratio an exact integer just below a power of two: adding the filter length crosses into the
+            // next binade, where ceil(x) + k and ceil(x + k) can differ by the doubled rounding step
+            let m = rng.usize_in(8, 13);
+            let mut found = 0usize;
+            for j in 0..200usize {
+                let q = (1usize << m).saturating_sub(j); // chunk / ratio
+                if q == 0 {
+                    break;
+                }
+                if (q * per.max(1)) % 100 == 0 {
+                    let c = q * per.max(1) / 100;
+                    if c >= 1 && c <= 8192 {
+                        found = c;
+                        if rng.chance(0.5) {
+                            break;
+                        }
+                    }
+                }
+            }
+            if found > 0 {
+                found
+            } else {
+                ((per.max(1) / g) * rng.usize_in(1, 40)).clamp(1, 4096)
+            }
+        } else {
+            ((per.max(1) / g) * rng.usize_in(1, 40)).clamp(1, 4096)
+        }
     };
     let custom = kind.is_sinc() && rng.chance(0.5);
     let oversampling = *rng.pick(&[1usize, 2, 2, 3, 4, 8]);
@@ -414,7 +574,7 @@ pub fn gen_extreme_directed(rng: &mut Rng, kind: Kind) -> (Config, Vec<Op>) {
             ops.push(Op::SetRatio { rel: lo, ramp: r > 0 && rng.chance(0.3), relative_api: rng.chance(0.5) });
         }
         for _ in 0..rng.usize_in(1, 3) {
-            if cfg.kind.is_sinc() && fixed_in && rng.chance(0.5) {
+            if cfg.kind.is_sinc() && fixed_in && r > 0 && rng.chance(0.5) {
                 ops.push(Op::SetChunk { n: rng.usize_in(1, chunk) });
             }
             ops.push(Op::process());
